@@ -721,8 +721,9 @@ int vf::engine_main() {
   rep().infos["corpus_types"] = std::to_string(g_types.size());
   const std::string P = a.prop; bool th = a.thorough();
   int ncases = 0;
-  if (P == "C01") ncases = th ? 600 : 64; else if (P == "C03") ncases = th ? 3000 : 300; else if (P == "C04") ncases = th ? 200 : 8; else if (P == "C02") ncases = th ? 200 : 4;
-  else if (P == "C05") ncases = th ? 120 : 12; else if (P == "C06") ncases = th ? 120 : 10; else if (P == "C10") ncases = th ? 80 : 8; else if (P == "C11") ncases = th ? 400 : 50;
+  // thorough sizes are set so that each check stays within roughly 10-30 minutes on 16 cores (the thorough corpus is twice as large and built at -O1)
+  if (P == "C01") ncases = th ? 400 : 64; else if (P == "C03") ncases = th ? 3000 : 300; else if (P == "C04") ncases = th ? 48 : 8; else if (P == "C02") ncases = th ? 32 : 4;
+  else if (P == "C05") ncases = th ? 60 : 12; else if (P == "C06") ncases = th ? 60 : 10; else if (P == "C10") ncases = th ? 40 : 8; else if (P == "C11") ncases = th ? 300 : 50;
   else { fprintf(stderr, "codec engine: unknown property %s\n", P.c_str()); return 2; }
   uint64_t types_run = 0;
   for (auto& c : g_types) {
